@@ -222,8 +222,8 @@ func ruleCodeTable(c *chk.Ctx, d *dispatchModel) {
 		k := globs[g]
 		role := ""
 		for _, cd := range a.conds {
-			if bo, ok := cd.V.(*ssa.BinOp); ok && bo.Op == token.EQL && cd.Truth {
-				if s, isS := constString(bo.Y); isS && s == "" && chk.LoadsField(ir.NormCell(bo.X), c.M.QMethod) {
+			if x, y, op, isRel := ir.Rel(cd); isRel && op == token.EQL {
+				if s, isS := constString(y); isS && s == "" && chk.LoadsField(ir.NormCell(x), c.M.QMethod) {
 					role = "empty method"
 				}
 			}
@@ -458,6 +458,11 @@ func ruleIDHandling(c *chk.Ctx) {
 				case token.LSS:
 					if k, isC := ir.ConstInt(bo.Y); isC && k == 4 {
 						return // the loop bound i < len(K)
+					}
+					if x, isLen := ir.LenOf(bo.Y); isLen {
+						if _, fromParam := x.(*ssa.Parameter); fromParam {
+							return // the loop bound i < len(msg), equal to len(K) under the length test
+						}
 					}
 					other++
 				case token.ADD:
